@@ -204,7 +204,8 @@ impl<R: Read> LineProcessor<R> {
 
             if batch.len() >= batch_size {
                 if !handler(&batch)? {
-                    break;
+                    // Stopped by the handler: the batch must not be handed over a second time below
+                    return Ok(total_processed);
                 }
                 total_processed += batch.len();
                 batch.clear();
